@@ -11,7 +11,7 @@ NOT_APPLICABLE = {
 
 PLAN = {
     "C01": dict(
-        verus=["group_cycle", "rx_route"], kani=["slots", "wkc", "storage", "rx"], assumptions=['Kani has no threads: every operation is proved from an arbitrary slot state; their composition under concurrency is the Verus lemma slot_protocol plus the memory-model assumption', 'receive_frame / lookup harnesses are bounded in slots, slot size and input length (listed under bounded_not_counted_as_proved)', 'the contract of the 2nd and later items of ReceivedPduIter is assumed (CBMC does not finish two calls)'], level="proof",
+        verus=["group_cycle", "rx_route", "pdu_iter", "slot_search"], kani=["slots", "wkc", "storage", "rx", "pdu_flags"], assumptions=['Kani has no threads: every operation is proved from an arbitrary slot state; their composition under concurrency is the Verus lemma slot_protocol plus the memory-model assumption', 'receive_frame / lookup harnesses are bounded in slots, slot size and input length (listed under bounded_not_counted_as_proved)', 'the contract of the 2nd and later items of ReceivedPduIter is assumed (CBMC does not finish two calls)'], level="proof",
         claim="sequential core of response routing on the real code (Kani): index lookup returns the lowest matching slot and never an empty one; "
               "receive_frame stores the response byte-exact into exactly the Sent slot that owns the first datagram index and marks it RxDone; "
               "poll returns Ok only from RxDone; first_pdu validates command/index and views exactly the datagram's data area; trim_front "
@@ -24,7 +24,7 @@ PLAN = {
              "atomic slot operations whose sequential contracts are proved here (C02 composition argument); known finding D2 (view outlives its slot)",
     ),
     "C02": dict(
-        verus=["slot_protocol"], kani=["slots", "storage", "tx"], assumptions=['interleaving semantics of atomic operations (no weak-memory effects beyond Release/Acquire happens-before)'], level="proof",
+        verus=["slot_protocol", "slot_search"], kani=["slots", "storage", "tx"], assumptions=['interleaving semantics of atomic operations (no weak-memory effects beyond Release/Acquire happens-before)'], level="proof",
         claim="rely/guarantee: (1) every slot operation of the real code performs exactly the transition of the protocol table from an arbitrary "
               "pre-state and touches nothing else (Kani, all 8 states, loop-free => complete); (2) the protocol machine built from that table keeps "
               "'at most one party inside each buffer' as an inductive invariant for any number of slots and tasks (Verus lemma)",
@@ -32,14 +32,15 @@ PLAN = {
              "(PduTx / PduRx exist once: try_split proved); memory-ordering arguments are not machine-checked",
     ),
     "C03": dict(
-        verus=["slot_protocol"], kani=["slots", "storage"], assumptions=['as C02'], level="proof",
+        verus=["slot_protocol", "slot_search"], kani=["slots", "storage"], assumptions=['as C02'], level="proof",
         claim="every release path returns the slot (CreatedFrame::drop, ReceivedFrame::drop, ReceiveFrameFut::drop, poll timeout, send failure, reset) and "
-              "alloc_frame fails only when no slot is None, touching no other slot (Kani; alloc per N in {1,2,(4)} with all state vectors and cursors); "
+              "alloc_frame fails only when no slot is None - for ANY number of slots and any cursor value (Verus unit slot_search, the search loop extracted whole; real pointer storage: Kani per N in {1,2,(4)} with all state vectors and cursors); "
               "lemma: a slot that is not None is held by a live handle or by TX/RX",
-        note="alloc_frame is proved per storage size N (configurations enumerated), not for symbolic N",
+        note="alloc_frame / next_sendable_frame / claim_receiving / the index lookup are extracted whole in the Verus unit slot_search for ANY number of slots 1..=255 (alloc fails only when no slot is None: "
+             "two rounds of the 8-bit cursor visit every slot - lemma_two_rounds_cover); the same functions on the real pointer storage per N in {1,2,4} stay as Kani cross-checks",
     ),
     "C04": dict(
-        verus=["created_frame"], kani=["frame_build", "frame_header", "slots"], assumptions=['FrameBox accessors (pdu_buf_mut, add_pdu, pdu_payload_len) are assumed in the Verus unit created_frame; their pointer code is exercised by the bounded Kani harnesses'], level="proof",
+        verus=["created_frame"], kani=["frame_build", "frame_header", "pdu_flags", "slots"], assumptions=['FrameBox accessors (pdu_buf_mut, add_pdu, pdu_payload_len) are assumed in the Verus unit created_frame; their pointer code is exercised by the bounded Kani harnesses'], level="proof",
         claim="CreatedFrame::push_pdu / push_pdu_slice_rest / can_push_pdu_payload / is_empty and generate::write_packed extracted WHOLE and verbatim (Verus, any frame "
               "size <= 2047, any number of datagrams, any payload): Ok iff old used + max(len, override) + 12 <= capacity, the used length advances by exactly that, a refused push "
               "returns TooLong and changes nothing, fill-the-rest is cut to min(len, free-12) and says so and never errs, bytes beyond the new datagram are untouched, the "
@@ -51,7 +52,7 @@ PLAN = {
              "pointer code is in the Kani groups); the BYTE CONTENT harnesses are bounded in frame size and datagram count (stated under bounded_not_counted_as_proved)",
     ),
     "C05": dict(
-        verus=["rx_route"], kani=["rx", "storage", "slots", "frame_header"], assumptions=['slot storage (raw pointers, atomics) seen through the contracts of frame_index_by_first_pdu_index / claim_receiving / mark_received / buf_mut proved by Kani on the real code (bounded N)', 'the Kani stand-in on the real storage is bounded: N=2 slots, 44-byte slots, inputs <= 50 bytes'], level="proof",
+        verus=["rx_route", "slot_search"], kani=["rx", "storage", "slots", "frame_header"], assumptions=['slot storage (raw pointers, atomics) seen through the contracts of frame_index_by_first_pdu_index / claim_receiving / mark_received / buf_mut proved by Kani on the real code (bounded N)', 'the Kani stand-in on the real storage is bounded: N=2 slots, 44-byte slots, inputs <= 50 bytes'], level="proof",
         claim="PduRx::receive_frame extracted WHOLE (Verus unit rx_route, UNBOUNDED: any number of slots, any slot size, any input length, any bytes): the outcome is exactly "
               "route(bytes, markers, slot states): Ignored iff exit flag / not EtherCAT / own echo / empty frame; an error for short frames, foreign frame types, truncated or "
               "index-less datagram areas, an index nobody has sent, a slot that does not await a response, a response larger than the slot; otherwise Processed with the datagram "
@@ -71,7 +72,7 @@ PLAN = {
              "for embassy_time_driver); known findings C06-U1..U5",
     ),
     "C07": dict(
-        verus=["group_cycle", "created_frame"], kani=["wkc", "frame_build"], assumptions=['ECHO-SHAPE: a response frame has the datagram boundaries of the request frame (contents and counters arbitrary)', 'CreatedFrame is seen through its accounting contract (proved in unit created_frame), ReceivedPduIter::next through an assumed contract for items after the first'], level="proof",
+        verus=["group_cycle", "created_frame", "pdu_iter"], kani=["wkc", "frame_build", "pdu_flags"], assumptions=['ECHO-SHAPE: a response frame has the datagram boundaries of the request frame (contents and counters arbitrary)', 'CreatedFrame is seen through its accounting contract (proved in unit created_frame), ReceivedPduIter::next through the contract that unit pdu_iter proves on the extracted function (item i = datagram i of the chain, any buffer) with the buffer accessors assumed'], level="proof",
         claim="SubDeviceGroup::tx_rx, tx_rx_sync_system_time and tx_rx_dc extracted WHOLE and verbatim (Verus, any image length <= MAX_PDI, any input/output split, any number of SubDevices, any "
               "frame size from one state check up to 2047): each frame's process-data datagram is an LRW at start + (bytes sent so far) carrying exactly the next "
               "n = min(bytes left, free-12) > 0 image bytes (chunks tile the window contiguously, no gap, no overlap); the output part of the image is untouched; "
@@ -80,8 +81,8 @@ PLAN = {
               "datagram is answered]); the DC variants start exactly the FIRST frame with one FRMW(reference clock, 0x0910, 8 bytes) and no later frame carries one. Leaves: "
               "push_state_checks (k = min(devices left, floor(free/14), 129), group order), process_received_pdi_chunk (full frame condition).",
         note="network = echo-shape assumption (a reply has the datagram boundaries of the request, contents arbitrary); CreatedFrame seen through its push contract "
-             "(accounting part decided unboundedly by the Verus unit created_frame, which is run for C07 as well; byte content by C04's Kani group, bounded) and ReceivedPduIter::next through its contract (first item: Kani wkc::rx_pdu_iter_first; later items ASSUMED - CBMC does "
-             "not finish two calls); 'states in group order' is proved as a count, not per entry; 'reported system time is the FRMW answer' is not stated",
+             "(accounting part decided unboundedly by the Verus unit created_frame, which is run for C07 as well; byte content by C04's Kani group, bounded) and ReceivedPduIter::next through its contract (proved for every item, any buffer, by the Verus unit pdu_iter on the extracted function; real pointers: Kani wkc::rx_pdu_iter_first "
+             "for the first item - CBMC does not finish two calls, also not with a concrete first datagram); 'states in group order' is proved as a count, not per entry; 'reported system time is the FRMW answer' is not stated",
     ),
     "C18": dict(
         verus=["dc_arith", "dc_sync", "group_cycle"], kani=[], assumptions=['A-C18-1: reference time + start delay is representable in 64 bits', 'a SYNC0 period of 0 is outside the quantifier (division by zero, D19)', 'effects are observed through positive predicates: order of writes and absence of other writes are not decided'], level="proof",
